@@ -130,6 +130,12 @@ def _setup_cluster_df(
                     cluster_df = cluster_df.drop_duplicates()
                 else:
                     column_checks = False
+            if "cellular_prevalence" not in cluster_df.columns:
+                # The cluster prevalence column is documented as 'ccf'; PyClone-VI names it 'cellular_prevalence'.
+                if "ccf" in cluster_df.columns:
+                    cluster_df = cluster_df.rename(columns={"ccf": "cellular_prevalence"})
+                else:
+                    column_checks = False
             if column_checks:
                 print("\nCluster level outlier probability column not found. Assigning from data.")
                 _assign_out_prob(cluster_df, rng, low_loss_prob, high_loss_prob)
